@@ -337,14 +337,15 @@ def oracle(hout, case):
     if hout in ("invalid-input", "bad-op"):
         return ("c14-generator-invalid-input", f"the harness refused `{_short(case.op)}`: {hout}")
     parts = hout.split(" || ")
-    if op in ("dedupv", "dedupp", "dedupvp"):
+    dedups = op in ("dedupv", "dedupp", "dedupvp") or op == "buildmesh" or (op == "buildpc" and case.op.split()[2] == "1")
+    if dedups and hout != "null":
         if len(parts) < 2:
             return ("c14-malformed-output", f"`{_short(case.op)}` -> {_short(hout)}")
         if "ret=false" in parts[2:]:
             return (f"c14-{op}-reported-failure", f"DeduplicateAttributeValues returned false for `{_short(case.op)}`")
         if parts[1] != "=":
             return (f"c14-{op}-not-idempotent",
-                    f"running the operation a second time changed the geometry: `{_short(case.op)}` -> first {_short(parts[0])} second {_short(parts[1])}")
+                    f"running the deduplication (again) on the result changed the geometry: `{_short(case.op)}` -> first {_short(parts[0])} second {_short(parts[1])}")
     if op == "cleanup" and hout.startswith("err-modified"):
         return ("c14-cleanup-failed-but-modified",
                 f"MeshCleanup::Cleanup reported an error but changed the mesh: `{_short(case.op)}` -> {_short(hout)}")
@@ -559,7 +560,7 @@ def exhaustive_cases(rng, thorough):
 
 def generate(rng, tier):
     thorough = tier == "thorough"
-    mult = 8 if thorough else 2
+    mult = 16 if thorough else 4
     cases = [make_case(w, tags=("witness",)) for w in WITNESSES]
     for line, tags in exhaustive_cases(rng, thorough):
         cases.append(make_case(line, tags=tags))
@@ -570,7 +571,9 @@ def generate(rng, tier):
             return rng.randint(1, 8)
         if r < 0.9:
             return rng.randint(9, 40)
-        return rng.randint(41, 600 if thorough else 200)
+        if r < 0.995:
+            return rng.randint(41, 600 if thorough else 200)
+        return rng.randint(1000, 4000 if thorough else 1500)
 
     def add(line, tags, g=None):
         t = set(tags)
